@@ -518,6 +518,9 @@ pub fn run(args: &Args) -> Report {
             }
         }
     });
+    if !miri && args.replay.is_none() && args.wants("C08") {
+        rep.merge(server_level_pipelining());
+    }
     if let Some(p) = rep.props.get_mut("C18") {
         p.exhaustive = Some(false);
         p.assume("reference = plain hyper http1/http2 server connection fed the same bytes in one read");
@@ -527,6 +530,76 @@ pub fn run(args: &Args) -> Report {
         p.assume("reference = plain hyper http1/http2 server connection fed the same bytes in one read; Date header values are masked, HTTP/2 output compared by frame header and DATA payload");
         p.assume("HTTP/2 client bytes are captured once from a real hyper client session and replayed (the server side does not depend on client ACK timing)");
         p.count("streams", all_streams.len() as u64);
+    }
+    rep
+}
+
+
+/// Server level (`Server::builder().with_auto_http()` / `.with_http1()` on a duplex acceptor): two pipelined HTTP/1.1
+/// requests, the client's bytes cut inside the second one. The first request is complete, so its response must arrive
+/// before the rest of the second request is sent - exactly as on a single-protocol server - wherever the cut falls.
+fn server_level_pipelining() -> Report {
+    use crate::e2e::shutdown::{h1_request, parse_h1_response, read_available};
+    use crate::e2e::*;
+    use tokio::io::AsyncWriteExt;
+    let mut rep = Report::new("sniff");
+    let rt = tokio::runtime::Builder::new_current_thread().enable_all().start_paused(true).build().unwrap();
+    for proto in [Proto::Auto, Proto::H1] {
+        for first_body in [0usize, 10, 3000] {
+            let (h2a, b2a) = h1_request(2, 7, None, true);
+            let mut second = h2a.clone();
+            second.extend_from_slice(&b2a);
+            for k in [0usize, 1, 4, 5, 17, 24, 40, second.len() - 1] {
+                let k = k.min(second.len() - 1);
+                let second = second.clone();
+                let problems: Vec<(String, String)> = rt.block_on(async move {
+                    let mut problems = Vec::new();
+                    let log = Arc::new(Log::default());
+                    let gates = Gates::default();
+                    let server = spawn_server(ServerSpec { id: 0, proto, net: Net::Duplex(65_536), tls: None, graceful: false, sni_validation: false }, log.clone(), gates.clone()).await;
+                    let Target::Duplex(dclient, _) = server.target.clone() else { unreachable!() };
+                    let Ok(mut io) = dclient.connect(65_536).await else { return vec![("server-level:connect-failed".to_string(), String::new())] };
+                    let (h1, b1) = h1_request(1, first_body, None, true);
+                    let mut first_write = h1.clone();
+                    first_write.extend_from_slice(&b1);
+                    first_write.extend_from_slice(&second[..k]);
+                    let _ = io.write_all(&first_write).await;
+                    for _ in 0..3 {
+                        tokio::time::sleep(std::time::Duration::from_millis(5)).await;
+                    }
+                    let mut got = Vec::new();
+                    let _ = read_available(&mut io, &mut got).await;
+                    match parse_h1_response(&got) {
+                        Some(p) if p.complete => {
+                            if p.headers.get("x-id").and_then(|v| v.to_str().ok()) != Some("1") {
+                                problems.push((format!("server-level:first-response-is-not-for-the-first-request:{proto:?}"), format!("cut {k}: x-id {:?}", p.headers.get("x-id"))));
+                            }
+                        }
+                        _ => problems.push((
+                            format!("server-level:first-response-withheld-until-more-bytes-arrive:{proto:?}"),
+                            format!("two pipelined requests, the first complete ({first_body} B body), {k} byte(s) of the second in the same write: {} response bytes at quiescence (a single-protocol hyper server answers the first request at once)", got.len()),
+                        )),
+                    }
+                    let _ = io.write_all(&second[k..]).await;
+                    for _ in 0..3 {
+                        tokio::time::sleep(std::time::Duration::from_millis(5)).await;
+                    }
+                    let _ = read_available(&mut io, &mut got).await;
+                    let ids: Vec<String> = log.handled.lock().unwrap().iter().map(|h| format!("{:?}", h.header_id)).collect();
+                    if ids != ["Some(1)", "Some(2)"] {
+                        problems.push((format!("server-level:handler-view-differs:{proto:?}"), format!("cut {k}: handler saw requests {ids:?}, sent [1, 2]")));
+                    }
+                    server.join.abort();
+                    problems
+                });
+                let p = rep.prop("C08", RULE);
+                p.eval(Some(hash_of(&("server-level", format!("{proto:?}"), first_body, k))));
+                p.count("server_level_pipelined_cases", 1);
+                for (sig, msg) in problems {
+                    p.violation(sig, msg, json!({"engine": "sniff", "server_level": true, "proto": format!("{proto:?}"), "first_body": first_body, "cut": k}));
+                }
+            }
+        }
     }
     rep
 }
